@@ -26,6 +26,7 @@ type cell struct {
 	AFlags, DFlags         gen.NetworkFlags
 	AAccFlags, DRouteFlags *gen.NetworkFlags
 	AMMS, AAccMMS, DMMS    int
+	Stagger                bool // start the dialing node in a later wall-clock second, so that the two creations differ
 }
 
 func orUnset(s string) string {
@@ -39,6 +40,9 @@ func (c cell) id() string {
 	s := fmt.Sprintf("M/%s/A:node=%s,acc=%s/D:node=%s,route=%s", c.Kind, orUnset(c.ANode), orUnset(c.AAcc), orUnset(c.DNode), orUnset(c.DRoute))
 	if c.Runtime != "" {
 		s += "/" + c.Runtime + "=" + c.New
+	}
+	if c.Stagger {
+		s += "/staggered-start"
 	}
 	return s
 }
@@ -97,6 +101,7 @@ func mkFlags(rng interface{ Intn(int) int }) gen.NetworkFlags {
 func startPair(c cell) (a, d *hk.HNode, err error) {
 	reg := hk.FreePort()
 	a, err = hk.StartNode(hk.NodeCfg{Name: hk.UniqueName("ma"), Network: true, RegPort: reg, Tweak: func(o *gen.NodeOptions) {
+		o.Version = gen.Version{Name: "c15-accepting-node", Release: "r1"}
 		o.Network.Cookie = c.ANode
 		o.Network.Flags = c.AFlags
 		o.Network.MaxMessageSize = c.AMMS
@@ -110,7 +115,12 @@ func startPair(c cell) (a, d *hk.HNode, err error) {
 	if err != nil {
 		return nil, nil, err
 	}
+	if c.Stagger {
+		// input preparation, not a verdict: node creation is the start time in seconds
+		hk.WaitUntil(3*time.Second, func() bool { return time.Now().Unix() != a.Creation() })
+	}
 	d, err = hk.StartNode(hk.NodeCfg{Name: hk.UniqueName("md"), Network: true, RegPort: reg, Tweak: func(o *gen.NodeOptions) {
+		o.Version = gen.Version{Name: "c15-dialing-node", Release: "r2"}
 		o.Network.Cookie = c.DNode
 		o.Network.Flags = c.DFlags
 		o.Network.MaxMessageSize = c.DMMS
@@ -386,6 +396,12 @@ func runMatrix() {
 				}
 			}
 		}
+	}
+	// equal cookies with the two nodes started in different seconds: creations differ, so a mixed-up
+	// incarnation shows
+	for _, kind := range []string{"direct", "static", "registrar"} {
+		add(cell{Kind: kind, ANode: "x", DNode: "x", Stagger: true})
+		add(cell{Kind: kind, ANode: "y", AAcc: "y", DNode: "y", Stagger: true})
 	}
 	// unset node cookies (each node then picks a random one)
 	add(cell{Kind: "direct", ANode: "", DNode: ""})
